@@ -482,6 +482,11 @@ JudgeMultiget(ev, post, i) ==
           [] OTHER ->
                (IF a.hasdata
                   THEN Viol("C17", [w |-> "data-served-for-unresolvable-href", item |-> it, a |-> a], i) ELSE {})
+               \cup
+               \* a member the collection itself lists (PROPFIND Depth 1) is not "absent"
+               (IF it.cls \in {"live", "missing", "dup", "enc", "abs"} /\ ~a.found
+                   /\ it.n \in Range(post.colls[ev.c].listing)
+                  THEN Viol("C17", [w |-> "listed-member-answered-as-absent", item |-> it], i) ELSE {})
         : k \in as }
       : g \in Groups }
 
